@@ -13,7 +13,7 @@ from __future__ import annotations
 
 import z3
 
-from ..lv import Contract, forall, exists, Key, I
+from ..lv import Contract, FE, forall, exists, Key, I
 
 And, Or, Implies, Select = z3.And, z3.Or, z3.Implies, z3.Select
 
@@ -80,8 +80,8 @@ def cs_blocks(out, g, upto, values=None):
     cl = [("blocks-are-non-empty", forall(1, lambda b: Implies(And(0 <= b, b < m), Select(out.lens, b) >= 1))),
           ("entries-are-processed-elements", forall(2, lambda b, j: Implies(And(0 <= b, b < m, 0 <= j, j < Select(out.lens, b)), And(0 <= out.at(b, j), out.at(b, j) < upto)))),
           ("entries-increase-within-a-block", forall(3, lambda b, j, k: Implies(And(0 <= b, b < m, 0 <= j, j < k, k < Select(out.lens, b)), out.at(b, j) < out.at(b, k)))),
-          ("every-processed-element-is-in-a-block", forall(1, lambda e: Implies(And(0 <= e, e < upto),
-                                                                               exists(2, lambda b, j: And(0 <= b, b < m, 0 <= j, j < Select(out.lens, b), out.at(b, j) == e)))))]
+          ("every-processed-element-is-in-a-block", FE(lambda e: And(0 <= e, e < upto),
+                                                       lambda e, b, j: And(0 <= b, b < m, 0 <= j, j < Select(out.lens, b), out.at(b, j) == e)))]
     if values is not None:
         cl += [("one-label-per-block", values.n == m),
                ("a-block-holds-the-elements-of-its-label", forall(2, lambda b, j: Implies(And(0 <= b, b < m, 0 <= j, j < Select(out.lens, b)), keyof(g, out.at(b, j)) == Select(values.arr, b)))),
@@ -101,7 +101,7 @@ def cs_post(env, res, g):
     inr = lambda b, j: And(0 <= b, b < m, 0 <= j, j < Select(res.lens, b))
     return [("blocks-are-non-empty", forall(1, lambda b: Implies(And(0 <= b, b < m), Select(res.lens, b) >= 1))),
             ("entries-are-scenarios", forall(2, lambda b, j: Implies(inr(b, j), And(0 <= res.at(b, j), res.at(b, j) < n)))),
-            ("every-scenario-is-in-a-block", forall(1, lambda e: Implies(And(0 <= e, e < n), exists(2, lambda b, j: And(inr(b, j), res.at(b, j) == e))))),
+            ("every-scenario-is-in-a-block", FE(lambda e: And(0 <= e, e < n), lambda e, b, j: And(inr(b, j), res.at(b, j) == e))),
             ("no-scenario-occurs-twice", forall(4, lambda b, j, c, k: Implies(And(inr(b, j), inr(c, k), res.at(b, j) == res.at(c, k)), And(b == c, j == k)))),
             ("same-block-iff-same-block-in-both-arguments", forall(4, lambda b, j, c, k: Implies(And(inr(b, j), inr(c, k)),
                                                                                                   (b == c) == And(g["B1"](res.at(b, j)) == g["B1"](res.at(c, k)),
